@@ -7,6 +7,7 @@ _MODULES = [
     "c09_body_stream",
     "c10_limits",
     "c18_locals",
+    "c19_devserver",
 ]
 
 REGISTRY: dict = {}
